@@ -44,6 +44,10 @@ PROGRAMS = [
     'function poll(queue) { ready: while (queue.length) { if (ready) break ready; queue.pop(); } }',
     'function s(a) { var b = "one \\\ntwo" + a; return b + \'x\\\r\\ny\'; }',
     'function o() { var done = 0; function i() { done: for (;;) { done = 1; continue done; } } return i; }',
+    # the name of a named function expression is bound inside that function only (ES5 13): the same spelling outside it is another variable
+    'var f = 1; function outer() { var g = function f() { return f; }; return f; }',
+    'function outer() { var g = function inner() { return inner; }; return [g, inner]; }',
+    'function outer(cb) { cb(function again(n) { return n ? again(n - 1) : 0; }); var again = 2; return again; }',
 ]
 
 
